@@ -296,8 +296,8 @@ func mapTypedNames(ff *factFile) map[string]bool {
 
 type mapRange struct {
 	file, fn, expr string
-	sorted         bool   // a sort.* call follows in the same function
-	earlyExit      bool   // the loop body contains return / break / continue-to-label that makes the order observable
+	sorted         bool // a sort.* call follows in the same function
+	earlyExit      bool // the loop body contains return / break / continue-to-label that makes the order observable
 }
 
 func mapRanges(ff *factFile) []mapRange {
